@@ -89,10 +89,15 @@ def run(ck):
                     continue
                 plan.append(('%s-d%d-k%d' % (out, depth, k), va, False, out, depth, k, 1 if q else 2))
     plan.append(('fn-file-d1-k1', vf, True, 'file', 1, 1, 1))
+    # state-hashed: every interleaving of the forking thread with the other thread's call(s), no preemption bound
+    plan.append(('hashed-file-d1-k1', va, False, 'file', 1, 1, 'hashed'))
+    plan.append(('hashed-file-d2-k2', va, False, 'file', 2, 2, 'hashed'))
+    plan.append(('hashed-devlog-d1-k1', va, False, 'devlog', 1, 1, 'hashed'))
     total = 0
     outcomes = set()
     camps = []
     fork_points = set()
+    hashed_states = [0]
     for name, v, fn, out, depth, k, bound in plan:
         if ck.out_of_time():
             break
@@ -126,12 +131,16 @@ def run(ck):
                               'result': x.result, 'child_trace_tail': x.child_traces, 'sanitizer': x.san[:1], 'log': (x.log or b'').decode('latin-1')[:500],
                               'replay': 'VS_PREFIX=%s h_thr <ini> <res> 2 %d fork %d' % (','.join(map(str, x.prefix)), k, depth)})
         t0 = time.time()
-        n, complete = S.explore(runner, bound, check, deadline=ck.deadline)
+        if bound == 'hashed':
+            n, complete, nst, ned = S.explore_hashed(runner, check, deadline=ck.deadline)
+            hashed_states[0] += nst
+        else:
+            n, complete = S.explore(runner, bound, check, deadline=ck.deadline)
         total += n
         camps.append({'name': name, 'executions': n, 'preemption_bound': bound, 'bound_completed': complete, 'wall_s': round(time.time() - t0, 1)})
         if not complete:
             ck.capped = True
     ck.assumptions += ['fork points = scheduling points of the other thread (sync operations; function entries in the fn campaign)', 'sequentially consistent interleavings']
-    ck.coverage(states=len(outcomes), transitions=total, traces_validated_against_impl=total, evaluations=total, distinct_nontrivial=max(len(outcomes), len(fork_points)),
+    ck.coverage(states=len(outcomes) + hashed_states[0], scheduler_states_in_hashed_passes=hashed_states[0], transitions=total, traces_validated_against_impl=total, evaluations=total, distinct_nontrivial=max(len(outcomes), len(fork_points)),
                 rule='all schedules within the preemption bound per campaign (output x child depth x calls); distinct = max(distinct (campaign, verdict, child status), distinct fork positions relative to the other thread)',
                 distinct_fork_positions=len(fork_points), campaigns=camps, samples=camps[:5] or [{'note': 'none'}])
